@@ -347,8 +347,16 @@ pub fn child_main(tier: &str, progress: bool) -> i32 {
 }
 
 fn spawn_child(tier: &str, progress: bool) -> Result<BTreeMap<usize, String>, String> {
+    spawn_child_env(tier, progress, &[])
+}
+
+fn spawn_child_env(tier: &str, progress: bool, vars: &[String]) -> Result<BTreeMap<usize, String>, String> {
     let exe = std::env::current_exe().map_err(|e| e.to_string())?;
-    let out = std::process::Command::new(exe)
+    let mut cmd = std::process::Command::new(exe);
+    for v in vars {
+        cmd.env(v, "1");
+    }
+    let out = cmd
         .arg("c09-child")
         .arg(tier)
         .arg(if progress { "1" } else { "0" })
@@ -368,6 +376,155 @@ fn spawn_child(tier: &str, progress: bool) -> Result<BTreeMap<usize, String>, St
         }
     }
     Ok(m)
+}
+
+// ---- two simulations advanced in lock-step on one thread -----------------------------------
+
+/// `update(A); update(B); step(A); step(B)` on one thread must give each simulation exactly the
+/// output it gives when run alone (state that lives in the thread or the process instead of the
+/// environment shows up here and nowhere else).
+fn interleaved_part(out: &mut Outcome) {
+    use bourse_book::types::Side;
+    let steps = 25u64;
+    let mut pairs = 0u64;
+    for (name, mk) in [
+        ("noise", 0usize),
+        ("momentum", 1),
+        ("all-three", 2),
+    ] {
+        for multi in [false, true] {
+            pairs += 1;
+            // two different markets: tick 1 around 100 and tick 5 around 500
+            let run = |interleaved: bool| -> Result<Vec<(u64, u64)>, String> {
+                util::subject(|| {
+                    if !multi {
+                        let mut envs: Vec<Env> = [1u32, 5].iter().map(|t| {
+                            let mut e = Env::new(0, *t, 100, true);
+                            e.place_order(Side::Bid, 20, 9999, Some(98 * t)).unwrap();
+                            e.place_order(Side::Ask, 20, 9999, Some(102 * t)).unwrap();
+                            e
+                        }).collect();
+                        let mut rngs: Vec<Xoroshiro128StarStar> = vec![Xoroshiro128StarStar::seed_from_u64(5), Xoroshiro128StarStar::seed_from_u64(6)];
+                        let mut ag: Vec<SetAll> = [1u32, 5].iter().map(|t| SetAll { r: rnd(*t), n: noise(*t), m: mom(*t) }).collect();
+                        let upd = |a: &mut SetAll, e: &mut Env, r: &mut Xoroshiro128StarStar| match mk {
+                            0 => a.n.update(e, r),
+                            1 => a.m.update(e, r),
+                            _ => a.update(e, r),
+                        };
+                        if interleaved {
+                            for _ in 0..steps {
+                                for i in 0..2 {
+                                    upd(&mut ag[i], &mut envs[i], &mut rngs[i]);
+                                }
+                                for i in 0..2 {
+                                    envs[i].step(&mut rngs[i]);
+                                }
+                            }
+                        } else {
+                            for i in 0..2 {
+                                for _ in 0..steps {
+                                    upd(&mut ag[i], &mut envs[i], &mut rngs[i]);
+                                    envs[i].step(&mut rngs[i]);
+                                }
+                            }
+                        }
+                        envs.iter().map(digest_env).collect()
+                    } else {
+                        let mut envs: Vec<MarketEnv<2, 10>> = [1u32, 5].iter().map(|t| {
+                            let mut e: MarketEnv<2, 10> = MarketEnv::new(0, [*t, *t], 100, true);
+                            for a in 0..2 {
+                                e.place_order(a, Side::Bid, 20, 9999, Some(98 * t)).unwrap();
+                                e.place_order(a, Side::Ask, 20, 9999, Some(102 * t)).unwrap();
+                            }
+                            e
+                        }).collect();
+                        let mut rngs: Vec<Xoroshiro128StarStar> = vec![Xoroshiro128StarStar::seed_from_u64(5), Xoroshiro128StarStar::seed_from_u64(6)];
+                        let mut ag: Vec<MSetAll> = [1u32, 5].iter().map(|t| MSetAll { r: mrnd(0, *t), n: mnoise(1, *t), m: mmom(1, *t) }).collect();
+                        let upd = |a: &mut MSetAll, e: &mut MarketEnv<2, 10>, r: &mut Xoroshiro128StarStar| match mk {
+                            0 => a.n.update(e, r),
+                            1 => a.m.update(e, r),
+                            _ => a.update(e, r),
+                        };
+                        if interleaved {
+                            for _ in 0..steps {
+                                for i in 0..2 {
+                                    upd(&mut ag[i], &mut envs[i], &mut rngs[i]);
+                                }
+                                for i in 0..2 {
+                                    envs[i].step(&mut rngs[i]);
+                                }
+                            }
+                        } else {
+                            for i in 0..2 {
+                                for _ in 0..steps {
+                                    upd(&mut ag[i], &mut envs[i], &mut rngs[i]);
+                                    envs[i].step(&mut rngs[i]);
+                                }
+                            }
+                        }
+                        envs.iter().map(digest_menv).collect()
+                    }
+                })
+            };
+            let replay = json!({"agents": name, "multi_asset": multi, "steps": steps, "simulations": "A: tick 1, seed 5; B: tick 5, seed 6"});
+            match (run(false), run(true)) {
+                (Ok(solo), Ok(inter)) => {
+                    if solo != inter {
+                        out.fail_other(
+                            "determinism/interleaved-simulations-influence-each-other",
+                            format!("{} agents: two independent simulations advanced in lock-step on one thread give outputs {:?}, run one after the other {:?}", name, inter, solo),
+                            replay,
+                        );
+                    }
+                }
+                (Err(m), _) | (_, Err(m)) => out.fail_other(&format!("determinism/abort/{}", util::panic_sig(&m)), m, replay),
+            }
+        }
+    }
+    out.add_u64("states", pairs * 4);
+    out.add_u64("transitions", pairs * 4 * steps);
+    out.add_u64("traces_validated_against_impl", pairs * 4);
+    out.set("interleaved_simulations", json!({"pairs": pairs, "steps": steps, "rule": "two simulations with different ticks, prices and seeds; update A, update B, step A, step B on one thread vs each run alone"}));
+}
+
+/// environment variables the library reads (scanned from its sources): a child process is run
+/// with each of them set; the output must not depend on them
+fn env_vars_read_by_the_library() -> Vec<String> {
+    let repo = std::env::var("VERIF_REPO").unwrap_or_else(|_| "/repo".into());
+    let mut names = std::collections::BTreeSet::new();
+    fn walk(dir: &std::path::Path, names: &mut std::collections::BTreeSet<String>) {
+        let Ok(rd) = std::fs::read_dir(dir) else { return };
+        for e in rd.flatten() {
+            let p = e.path();
+            if p.is_dir() {
+                if p.file_name().map_or(false, |n| n == "target" || n == "tests") {
+                    continue;
+                }
+                walk(&p, names);
+            } else if p.extension().map_or(false, |x| x == "rs") {
+                if let Ok(txt) = std::fs::read_to_string(&p) {
+                    for key in ["var(", "var_os("] {
+                        let mut rest = txt.as_str();
+                        while let Some(i) = rest.find(key) {
+                            let after = &rest[i + key.len()..];
+                            let after = after.trim_start();
+                            if let Some(stripped) = after.strip_prefix('"') {
+                                if let Some(j) = stripped.find('"') {
+                                    let name = &stripped[..j];
+                                    if !name.is_empty() && name.chars().all(|c| c.is_ascii_alphanumeric() || c == '_') {
+                                        names.insert(name.to_string());
+                                    }
+                                }
+                            }
+                            rest = &rest[i + key.len()..];
+                        }
+                    }
+                }
+            }
+        }
+    }
+    walk(std::path::Path::new(&format!("{}/crates", repo)), &mut names);
+    names.into_iter().collect()
 }
 
 // ---- step-count sweep: every run length up to a bound, both progress-bar branches -----------
@@ -660,6 +817,12 @@ pub fn c09(tier: &str) -> i32 {
     let mut out = Outcome::new("C09", tier, "model_checking");
     scripted_part(&mut out, tier);
     sweep_part(&mut out, tier);
+    interleaved_part(&mut out);
+    let env_vars = env_vars_read_by_the_library();
+    out.set("environment_variables_read_by_the_library", json!(env_vars));
+    if !env_vars.is_empty() {
+        out.push("notes", json!(format!("the library reads environment variables {:?}: an extra child process runs the grid with all of them set to \"1\"", env_vars)));
+    }
     let t = tier == "thorough";
     let g = grid(t);
     // children first (they run concurrently with nothing else; each is single-threaded)
@@ -667,6 +830,11 @@ pub fn c09(tier: &str) -> i32 {
         let hs: Vec<_> = [(false), (true), (false)].into_iter().map(|pr| s.spawn(move || (pr, spawn_child(tier, pr)))).collect();
         hs.into_iter().map(|h| h.join().unwrap()).collect()
     });
+    // one more child with every environment variable the library reads set to "1"
+    let mut kids = kids;
+    if !env_vars.is_empty() {
+        kids.push((false, spawn_child_env(tier, false, &env_vars)));
+    }
     let mut evaluations = 0u64;
     let mut digests_by_cfg: BTreeMap<(usize, bool, u64, u32, u64), BTreeMap<u64, u64>> = BTreeMap::new();
     let mut nontrivial: BTreeSet<u64> = BTreeSet::new();
@@ -699,7 +867,7 @@ pub fn c09(tier: &str) -> i32 {
         let p = &g[i];
         let mut all: Vec<(String, Result<(u64, u64), String>)> = runs;
         for (k, (progress, kid)) in kids.iter().enumerate() {
-            let label = format!("child process #{} (progress bar {})", k, if *progress { "on" } else { "off" });
+            let label = if k >= 3 { format!("child process #{} (environment variables read by the library set)", k) } else { format!("child process #{} (progress bar {})", k, if *progress { "on" } else { "off" }) };
             match kid {
                 Ok(m) => match m.get(&i) {
                     Some(d) => match d.parse::<u64>() {
